@@ -63,7 +63,12 @@ func (cb *CircuitBreaker) IsOpen(endpointURL string) bool {
 			// check if it's been a long time, shouldn't have left you
 			// Without a dope beat to step to
 			lastAttempt := atomic.LoadInt64(&state.lastAttempt)
-			return time.Unix(0, lastAttempt).Add(time.Second).After(time.Now())
+			if time.Unix(0, lastAttempt).Add(time.Second).After(time.Now()) {
+				return true
+			}
+			// The probe window has elapsed: let exactly one caller through and restart the
+			// window, otherwise every caller is admitted once the first probe is a second old.
+			return !atomic.CompareAndSwapInt64(&state.lastAttempt, lastAttempt, now)
 		}
 		return true
 	}
